@@ -155,6 +155,11 @@ class P(Play):
                         pass
             except (TransitionNotAllowed, Boom):
                 pass
+            except HarnessError:
+                raise
+            except Exception as e:
+                # the unrelated class is a valid machine too: it must not break because the subject's definitions exist
+                raise Fail("other-class-misbehaves", f"step {self.i}: the unrelated class reusing the subject's names failed with {type(e).__name__}: {e}")
         self.labels.add("noise:class-" + step["variant"])
         self._noise_since = True
 
@@ -196,6 +201,10 @@ class P(Play):
                         pass
             except (TransitionNotAllowed, Boom):
                 pass
+            except HarnessError:
+                raise
+            except Exception as e:
+                raise Fail("subclass-misbehaves", f"step {self.i}: a subclass adding methods failed with {type(e).__name__}: {e}")
         self.labels.add("noise:subclass")
         self._noise_since = True
         for name, ctx in self.ctxs.items():
